@@ -908,6 +908,38 @@ fn c15(ctx: &Ctx) -> i32 {
             report.fail(f);
         }
     }
+    if ctx.replay.is_none() {
+        // "watching applies the same rule to the path of each event": the same declarations under
+        // a real watcher, with two resources on one path (filtered + unfiltered, or two filters)
+        install_panic_hook();
+        let pr = PropRun {
+            ctx,
+            engine: "INC-watch",
+            rule: "real TargetWatcher over a scratch tree where two files resources share one path (two different filters, or a filter and no filter): an event on a file denoted by either resource must invalidate the target, an event on a file denoted by neither must not (same barrier protocol as C16)",
+            total_cases: ctx.tier.pick(400, 4000),
+            threads: 12.min(ctx.threads),
+            max_shrink_iters: 100,
+            stream: 315,
+        };
+        let (part, failures) = run_prop(
+            &pr,
+            || {
+                use proptest::prelude::*;
+                c16_case().prop_map(|mut c| {
+                    c.same_path = true;
+                    if c.ext_b.is_none() {
+                        c.ext_b = Some(if c.ext_a == 6 { 0 } else { 6 });
+                    }
+                    c
+                })
+            },
+            eval_c16,
+        );
+        report.add(part);
+        for f in failures {
+            report.fail(f);
+        }
+    }
     report.finish()
 }
 
@@ -1088,9 +1120,9 @@ fn c16(ctx: &Ctx) -> i32 {
             ctx,
             engine: "INC",
             rule: "real TargetWatcher (inotify) over a scratch tree: 1-2 extension groups (incl. filters that match temporary-file names: rs~, swp, swx) x 1-12 operations beneath the watched directories (create, write, append, rename within / out / in, delete, mkdir + file inside, write under .zinoma) on names from 12 classes (relevant, other extension, *~, .*.swp, .*.swx, non-UTF-8, 200 characters, newline, name == extension); relevant => >= 1 invalidation before the next barrier, irrelevant => none; watcher thread panics recorded; survival probe at the end; non-trivial = an irrelevant operation followed by a relevant one, or an odd name; distinct = operation/name class set x filters",
-            total_cases: ctx.tier.pick(4000, 30_000),
-            threads: 8.min(ctx.threads),
-            max_shrink_iters: 300,
+            total_cases: ctx.tier.pick(2400, 20_000),
+            threads: 12.min(ctx.threads),
+            max_shrink_iters: 200,
             stream: 116,
         };
         let (part, failures) = run_prop(&pr, c16_case, eval_c16);
